@@ -412,6 +412,7 @@ def check_precedence(ck, n):
                 ck.violation(["precedence", lab], f"{tgt} with specs {specs}: {out}, expected {kind}: {want}", {"kind": "prec", "lab": lab})
             else:
                 common.spurious("C11", f"precedence {lab}")
+    builtin_specs(ck, date, min(n, 3))
     # result type rule: finite table, evaluated exhaustively on the real function
     from _gettsim.functions_loader import _select_return_type
     ck.obligations += 1
@@ -436,6 +437,73 @@ def check_precedence(ck, n):
             ck.violation(["not-loud", nm], f"{nm} returns a value instead of raising NotImplementedError", {"kind": "loud", "f": nm})
 
 
+def builtin_specs(ck, date, n):
+    """every built-in group aggregation spec yields exactly the aggregation it names -- also where the
+    column name equals <source>_<group>, i.e. where the automatic sum would apply without the spec"""
+    from _gettsim.config import TYPES_INPUT_VARIABLES
+    from _gettsim.functions_loader import load_aggregation_dict
+    specs = load_aggregation_dict("aggregate_by_group")
+    P, F = gt.env(date)
+    usable = {k: v for k, v in specs.items() if v["aggr"] == "count" or v.get("source_col") in F or v.get("source_col") in TYPES_INPUT_VARIABLES}
+    try:
+        dag = symdag.Dag(date, targets=sorted(usable), rounding=False)
+    except Exception as e:   # noqa: BLE001
+        ck.add_inconclusive(f"built-in specs: graph not built ({type(e).__name__}: {e})"[:200])
+        return
+    seen = set()
+    for name, spec in sorted(usable.items()):
+        g = gt.suffix_group(name)
+        kind = spec["aggr"]
+        src = spec.get("source_col")
+        sig = (kind, g, None if src is None else dag.return_type(src))
+        shadow = src is not None and name == f"{src}_{g}"
+        if sig in seen and not shadow:
+            continue          # same aggregation kind / group / source type already proved
+        seen.add(sig)
+        gid = ints("g", n)
+        pre = [x.t >= 0 for x in gid.e]
+        if kind == "count":
+            col, frontier = None, {f"{g}_id": gid}
+        else:
+            ty = dag.return_type(src) or float
+            col = {float: reals, int: ints, bool: bools}[ty]("v", n)
+            frontier = {src: col, f"{g}_id": gid}
+        try:
+            ctx = R.Ctx()
+            v = symdag.eval_cols(dag, name, frontier, {}, ctx)
+        except R.Unsupported as e:
+            ck.add_inconclusive(f"built-in spec {name}: {e}")
+            continue
+        bad = []
+        for i in range(n):
+            d = definition(kind, col, gid, i)
+            r = v.e[i]
+            if kind in ("any", "all"):
+                # a truth value: the number must be exactly 0 / 1 (a group *sum* of 2 is not `any`)
+                bt = z3.Bool(f"__def{i}")
+                bad.append(z3.And(d(bt), R.num(r)[0] != z3.If(bt, 1, 0)))
+            else:
+                bad.append(z3.Not(d(T(r, float if kind == "mean" else None))))
+        r, m = ck.oblige(f"built-in spec {name} = {kind}({src}) by {g}", pre + [z3.Or(bad)], 60,
+                         sample=None if len(ck.samples) > 10 else {"spec": name, "expected": f"{kind} of {src} by {g}_id", "rows": n})
+        ck.nontrivial.add(("builtin", name))
+        if r == "sat":
+            gg = numpy.array([R.model_value(m, x) for x in gid.e])
+            kw = {f"{g}_id": gg}
+            if col is not None:
+                kw[src] = numpy.array([R.model_value(m, x) for x in col.e])
+            try:
+                out = numpy.asarray(dag.funcs[name](**kw)).tolist()
+            except Exception as e:   # noqa: BLE001
+                out = f"raises {type(e).__name__}"
+            want = reference_grouped(kind, [kw[src], gg] if col is not None else [gg])
+            if isinstance(out, str) or not _close_list(out, want):
+                ck.violation(["builtin-spec", name], f"{name}: built-in spec says {kind}({src}) but the column is {out}, expected {want} for {({k: v.tolist() for k, v in kw.items()})}",
+                             {"kind": "prec", "lab": name})
+            else:
+                common.spurious("C11", f"built-in spec {name}")
+
+
 def run(tier):
     ck = common.Check("C11", tier)
     rnd = random.Random(common.SEED)
@@ -445,6 +513,10 @@ def run(tier):
         check_grouped(ck, n)
         check_sum_by_p_id(ck, n)
         check_join(ck, n)
+    if tier == "quick":
+        # pointer code is cheap enough for 4 rows on every change (fast paths keyed on first/last row need >= 4)
+        check_sum_by_p_id(ck, 4)
+        check_join(ck, 4)
     check_precedence(ck, 3 if tier == "quick" else 4)
     ck.bounds = {"rows": sizes, "group_ids": "symbolic integers 0..50 (unsorted, sparse, non-contiguous)", "values": "unconstrained reals / ints / bools / day-dates",
                  "p_id labels for sum_by_p_id": "3 concrete label vectors per N (sorted, unsorted sparse); pointers symbolic",
